@@ -7,3 +7,4 @@ CONSTANTS
 INIT Init
 NEXT Next
 INVARIANT Contract
+INVARIANT AbsCommutes
